@@ -18,6 +18,7 @@ RULE = (
     "must equal the chain the inside-out rule gives; a census sub-check requires every storage/function/qualifier word of the "
     "source to appear in the AST. Non-trivial: derivation length >= 2 with two different constructor kinds, or >= 2 declarators, "
     "or an initializer with a designator; distinct by construction / by hash of the rendered text."
+    ' Name reuse: every derivation sequence of length <= 2 (quick) / 3 (thorough) declared under the name of a visible file-scope typedef in 6 contexts (block object, block typedef followed by a use, for-init, prototype parameter, definition parameter followed by a use, member); parenthesised parameter declarators of that kind are excluded (finding F9a). '
 )
 ASSUMPTIONS = ["expected AST per _c_ast.cfg and README (vlib/cmodel.py Expect); TypeDecl.align and Typename.name '' vs None are normalised"]
 QUARANTINE = ("stmt.static_assert_in_block", "decl.register_on_unnamed_parameter")
@@ -176,6 +177,73 @@ def enum_shard(arg):
     return st
 
 
+REUSE_CONTEXTS = ["block", "btypedef", "forinit", "param", "fparam", "member"]
+REUSE_NAMES = ["T0", "T1"]  # the typedef names of the prelude
+
+
+def embed_reuse(cname, spec, deriv, name):
+    """the declared entity re-uses a name that means something else (a
+    typedef name) in the enclosing scope; where the context allows, the name is
+    then used with its new meaning"""
+    d = ("d", name, list(deriv), None, None, None)
+    use = ("expr", ("id", name))
+    if cname == "block":
+        return _fn([("decl", list(spec), [d]), use])
+    if cname == "btypedef":
+        return _fn([("decl", [("s", "typedef")] + list(spec), [d]), ("decl", [("t", name)], [("d", "y", [], None, None, None)])])
+    if cname == "forinit":
+        return _fn([("for", ("d", ("decl", list(spec), [d])), None, None, use)])
+    if cname == "param":
+        return ("tu", [("decl", [("t", "void")], [("d", "g", [("fn", ("proto", [("param", list(spec), d)], False))], None, None, None)])])
+    if cname == "fparam":
+        return ("tu", [("fdef", [("t", "void")], ("d", "g", [("fn", ("proto", [("param", list(spec), d)], False))], None, None, None), None, ("block", [use]))])
+    return ("tu", [("decl", [("su", "struct", "Q", [("decl", list(spec), [d])])], [])])
+
+
+def _mentions(m, name):
+    if isinstance(m, (tuple, list)):
+        return any(_mentions(x, name) for x in m)
+    return m == name
+
+
+def _name_in_parens(deriv):
+    """a pointer constructor applied before an array/function constructor is written '(*name)...'"""
+    return any(d[0] == "ptr" and any(e[0] != "ptr" for e in deriv[i + 1 :]) for i, d in enumerate(deriv))
+
+
+def reuse_shard(arg):
+    first_i, n = arg
+    st = Stats()
+    idx = 0
+    for rest in itertools.product(range(len(ALPHABET)), repeat=max(n - 1, 0)):
+        deriv = [ALPHABET[i] for i in ((first_i,) + rest if n else ())]
+        for ci, cname in enumerate(REUSE_CONTEXTS):
+            for ni, name in enumerate(REUSE_NAMES):
+                k = idx + ci + ni
+                base = BASES[k % len(BASES)]
+                while _mentions(base, name):
+                    k += 1
+                    base = BASES[k % len(BASES)]
+                case = ("reuse", cname, base, deriv, name)
+                if cname in ("param", "fparam") and _name_in_parens(deriv):
+                    # '(*T0)[3]' in a parameter: finding F9a (the parenthesised typedef name is read as an abstract declarator)
+                    st.excluded["decl.paren_typedef_name_parameter(F9a)"] += 1
+                    continue
+                try:
+                    src = check_decl_unit(embed_reuse(cname, base, deriv, name), st, case)
+                except CheckFailure as f:
+                    st.failures.append(f.failure)
+                    if len(st.failures) > 40:
+                        return st
+                    continue
+                st.nontrivial += 1
+                st.classes["reuse." + cname] += 1
+                if idx % 97 == 3 and ci == idx % len(REUSE_CONTEXTS) and ni == 0:
+                    st.sample(src.split("\n", 1)[1])
+        idx += 1
+    return st
+
+
 def _has_designator(m):
     if isinstance(m, tuple):
         if m and m[0] == "il" and any(des for des, _ in m[1]):
@@ -246,6 +314,8 @@ def run(ctx):
         # lengths 1-3: every context; length 4: contexts rotated (one in 3 per sequence)
         jobs += [(n, i, None if n <= 3 else 3) for i in range(len(ALPHABET))]
     ctx.map(enum_shard, jobs)
+    # declarations whose name already is a typedef name of the enclosing scope
+    ctx.map(reuse_shard, [(0, 0)] + [(i, n) for n in range(1, ctx.pick(2, 3) + 1) for i in range(len(ALPHABET))])
     ctx.map(random_shard, [(s, ctx.pick(1200, 25000)) for s in ctx.shard_seeds(16)])
     ctx.exhaustive = True
     ctx.extra["exhaustive_bounds"] = "derivation sequences of length <= %d over %d constructors x %d contexts (length 4: every third context), base specifiers rotated over %d forms" % (nmax, len(ALPHABET), len(CONTEXTS), len(BASES))
@@ -256,6 +326,9 @@ def replay(subcheck, case):
     if case[0] == "enum":
         _, cname, base, deriv, parens = case
         check_decl_unit(embed(cname, base, deriv, parens), st, case)
+    elif case[0] == "reuse":
+        _, cname, base, deriv, name = case
+        check_decl_unit(embed_reuse(cname, base, deriv, name), st, case)
     else:
         _, tu, mode, pm = case
         check_decl_unit(tu, st, case, mode, pm)
